@@ -54,3 +54,24 @@
 ;@concl (eqS h a c)
 ;@measure (rank h a)
 ;@pattern (eqS h a b) (eqS h b c)
+
+; ---------------------------------------------------------------------------
+; C11: a container on a tree-form path below r has a rank (acyclicity measure) no larger than r's own: the
+; path only descends. Hence the parent of r, whose rank is larger, is never on a path below r - which is
+; what lets a tree-form write conclude that the recursive call did not touch the caller's own container.
+; Mutual induction over the two container kinds, on the length of the path.
+; ---------------------------------------------------------------------------
+;@lemma onPath-descends [C11]
+;@vars (h Heap) (r Int) (tf Str) (c Int)
+;@hyp (and (gh h) (wf h))
+;@concl (and (=> (and (= (select (Kind h) r) KOBJ) (onPathO h r tf c))
+;@concl          (and (or (= (select (Kind h) c) KLIST) (= (select (Kind h) c) KOBJ))
+;@concl               (=> (= (select (Kind h) c) KLIST) (<= (rank h (select (Lptr h) c)) (rank h (select (Optr h) r))))
+;@concl               (=> (= (select (Kind h) c) KOBJ) (<= (rank h (select (Optr h) c)) (rank h (select (Optr h) r))))))
+;@concl      (=> (and (= (select (Kind h) r) KLIST) (onPathL h r tf c))
+;@concl          (and (or (= (select (Kind h) c) KLIST) (= (select (Kind h) c) KOBJ))
+;@concl               (=> (= (select (Kind h) c) KLIST) (<= (rank h (select (Lptr h) c)) (rank h (select (Lptr h) r))))
+;@concl               (=> (= (select (Kind h) c) KOBJ) (<= (rank h (select (Optr h) c)) (rank h (select (Lptr h) r)))))))
+;@measure (slen tf)
+;@pattern (onPathO h r tf c)
+;@pattern2 (onPathL h r tf c)
